@@ -34,6 +34,11 @@ def generate(tier, seed):
         order = rng.choice(['asc', 'desc'])
         val = [[[float(1000 * m + 100 * a + i) + rng.dyadic(0, 0.5, 4) for i in range(nw)] for a in range(na)] for m in range(nm)]
         names = ['mod_%02d_%s' % (m, 'x' * rng.choice([0, 3, 10, 19])) for m in range(nm)]
+        style = rng.choice(['padded', 'unpadded', 'shuffled'])      # the stored order of the names need not be lexicographic
+        if style == 'unpadded':
+            names = ['run_%d' % (8 + m) for m in range(nm)]
+        elif style == 'shuffled':
+            rng.shuffle(names)
         cases.append(dict(kind=kind, wav=wav, order=order, aps=aps, val=val, names=names, unit=rng.choice(UNITS), with_unc=rng.random() < 0.7,
                           stored=rng.choice(['incr', 'decr']), unit_wav=rng.choice(['micron', 'micron', 'cm', 'nm', 'Angstrom']), unit_freq=rng.choice(['Hz', 'Hz', 'GHz', 'THz']), memmap=rng.random() < 0.5, conv_wav=rng.choice([None, rng.dyadic(0.3, 50, 8)])))
     return cases
